@@ -637,7 +637,17 @@ func TestVerifX05MirrorReplay(t *testing.T) {
 							spawned = true
 							return true
 						}
-						return mirrorAlive() == 0
+						if mirrorAlive() != 0 {
+							return false
+						}
+						// no goroutine of the proxy package's making exists; with one processor every runnable goroutine
+						// (whoever started it) gets its turn during these yields before "no mirror call" is concluded
+						for i := 0; i < 50; i++ {
+							runtime.Gosched()
+						}
+						scn.get(func() { n = scn.arrived["mirror"] })
+						spawned = n > 0
+						return true
 					})
 					if spawned != vx.Bool(obs["spawned"]) {
 						fail("spawn", "mirror goroutine spawned=%v, model %v", spawned, vx.Bool(obs["spawned"]))
